@@ -248,3 +248,11 @@ M('C04', 'agg-fixed-count', 'zonal.py', "crosstab_dict, _DEFAULT_STATS[agg]  # n
 T('C02', 'filter-conjuncts-swapped', 'zonal.py', "            zone_values = zone_values[np.isfinite(zone_values) & (zone_values != nodata_values)]", "            zone_values = zone_values[(zone_values != nodata_values) & np.isfinite(zone_values)]")
 T('C03', 'var-rearranged', 'zonal.py', "def _dask_var(sum_squares, squared_sum, n): return (sum_squares - squared_sum/n) / n  # noqa", "def _dask_var(sum_squares, squared_sum, n): return sum_squares / n - squared_sum / (n * n)  # noqa")
 T('C04', 'cursor-before-if', 'zonal.py', "    for j, cat in enumerate(unique_cats):\n        if cat in cat_ids:\n            count = zone_cat_breaks[j] - cat_start\n            crosstab_dict[cat].append(count)\n        cat_start = zone_cat_breaks[j]", "    for j, cat in enumerate(unique_cats):\n        prev = cat_start\n        cat_start = zone_cat_breaks[j]\n        if cat in cat_ids:\n            count = zone_cat_breaks[j] - prev\n            crosstab_dict[cat].append(count)")
+
+T('C01', 'apply-pads-genexp', 'focal.py', "    pad_h = kernel.shape[0] // 2\n    pad_w = kernel.shape[1] // 2\n\n    out = data.map_overlap(_func,", "    pad_h, pad_w = (s // 2 for s in kernel.shape)\n\n    out = data.map_overlap(_func,")
+M('C01', 'apply-pads-genexp-swapped', 'focal.py', "    pad_h = kernel.shape[0] // 2\n    pad_w = kernel.shape[1] // 2\n\n    out = data.map_overlap(_func,", "    pad_w, pad_h = (s // 2 for s in kernel.shape)\n\n    out = data.map_overlap(_func,", 'H1')
+M('C01', 'conv-dask-no-cast', 'convolution.py', "def _convolve_2d_dask_numpy(data, kernel):\n    data = data.astype(np.float32)\n", "def _convolve_2d_dask_numpy(data, kernel):\n", 'H2f')
+M('C01', 'validate-chunksize', 'utils.py', "            if first_array.chunks != arrays[i].chunks:", "            if first_array.data.chunksize != arrays[i].data.chunksize:", 'H5')
+M('C08', 'slope-dask-no-cast', 'slope.py', "                    cellsize_y: Union[int, float]) -> da.Array:\n    data = data.astype(np.float32)\n", "                    cellsize_y: Union[int, float]) -> da.Array:\n", 'L8-dask')
+M('C08', 'aspect-dask-reflect', 'aspect.py', "boundary=np.nan,", "boundary='reflect',", 'L8-dask')
+T('C01', 'mean-cast-float32', 'focal.py', "    out = agg.data.astype(float)\n", "    out = agg.data.astype(np.float32)\n")
